@@ -22,10 +22,11 @@ PROPERTY = "C14"
 LEVEL = "exploration"
 BUDGET = {"quick": 1600, "thorough": 80000}
 CHUNK = 10
-RUN_TIMEOUT_S = 240
+RUN_TIMEOUT_S = 1500
 RULE = (
     "seeded histories (3..25 ops) over one System and a pool of 6..16 contributions (rigid bodies, point masses, frames, "
-    "all joint types, springs / Kelvin-Voigt / Maxwell elements on two-point interactions and revolute joints, motors, "
+    "all joint types, springs / Kelvin-Voigt / Maxwell elements on two-point interactions and revolute joints, motors, a clamped "
+    "Cosserat rod of any formulation with a tip force (15 % of the histories), "
     "PD controllers, forces and moments, sphere-plane and sphere-sphere contacts, plus duck-typed fake bodies with "
     "state-dependent mass matrix and fake couplers with g / gamma / c / la_tau / g_N / gamma_F families incl. constant "
     "force reservoirs); ops add, extend, remove, pop, re-add, add-twice, remove-absent, assemble, assemble-again, evaluate; "
@@ -44,7 +45,7 @@ ASSUMPTIONS = [
     "assembly runs with compute_consistent_initial_conditions=False (initial-condition consistency is C16's subject)",
     "contributions are only removed while nothing present refers to them (the property does not speak about dangling references)",
 ]
-REQUIRED_PROBES = {"quick": ["op_assemble", "op_evaluate", "op_remove", "op_pop", "name_collision_generated", "fake_present", "assemble_again"]}
+REQUIRED_PROBES = {"quick": ["op_assemble", "op_evaluate", "op_remove", "op_pop", "name_collision_generated", "fake_present", "assemble_again", "rod_present"]}
 
 NAME_POOL = ["x", "y", "x_contr3", "x_contr4", "body"]
 DIMS = ["nq", "nu", "nla_c", "nla_tau", "ntau", "nla_g", "nla_gamma", "nla_S", "nla_N", "nla_F"]
@@ -384,6 +385,12 @@ def gen(rng, tier, index):
     use_fakes = rng.random() < 0.6
     fakes = _gen_fakes(rng, len(scene["bodies"])) if use_fakes else []
     plan = {"scene": scene, "fakes": fakes, "eval_seed": int(rng.integers(2**31))}
+    if rng.random() < 0.15:
+        from ..rods import gen_rod_spec
+
+        spec = gen_rod_spec(rng)
+        spec["nel"] = min(spec["nel"], 2)
+        plan["rod"] = {"spec": spec, "r": rng.uniform(-1, 1, 3).tolist(), "p": rot.rand_quat(rng).tolist(), "clamp": bool(rng.random() < 0.7), "tip_force": rng.normal(size=3).tolist()}
     # pool size is known only after construction; ops address pool items modulo its size
     n_ops = int(rng.integers(3, 26))
     npool_guess = 24
@@ -429,6 +436,17 @@ class Pool:
         B = build(scene, assemble=False, add_to_system=False)
         self.system = B.system
         items = list(B.order)
+        if plan.get("rod"):
+            from ..rods import build_rod
+            from cardillo.constraints import RigidConnection
+            from cardillo.forces import Force
+
+            rp = plan["rod"]
+            rod = build_rod(rp["spec"], r0=np.array(rp["r"]), A0=rot.quat_to_mat(rp["p"]), name="rod")
+            items.append(rod)
+            if rp["clamp"]:
+                items.append(RigidConnection(B.system.origin, rod, xi2=(0,), name="rod_clamp"))
+            items.append(Force(np.array(rp["tip_force"]), rod, (1,), name="rod_tip_force"))
         nb = len(B.bodies)
         bodies_all = list(B.bodies)
         fakebodies = []
@@ -926,6 +944,8 @@ class Machine:
         self.max_assembled = max(self.max_assembled, len(self.present))
         if any(isinstance(self.items[i], (FakeBody, FakeCoupler)) for i in self.present):
             self.out["probes"]["fake_present"] += 1
+        if any(type(self.items[i]).__name__ == "CosseratRod" for i in self.present):
+            self.out["probes"]["rod_present"] += 1
         if self.check_layout(k) is None:
             return
         if again and before is not None:
